@@ -8,6 +8,8 @@
 #include <orc/orcutils-private.h>
 
 #include <string.h>
+#include <limits.h>
+#include <errno.h>
 #include <stdlib.h>
 #include <stdio.h>
 
@@ -787,9 +789,14 @@ orc_parse_get_int (OrcParser *parser, const char *token)
   char *end;
   long value;
 
+  errno = 0;
   value = strtol (token, &end, 0);
   if (end == token || end[0] != 0) {
     orc_parse_add_error (parser, "bad number '%s'", token);
+  } else if (errno == ERANGE || value < INT_MIN || value > INT_MAX) {
+    /* sizes, alignments and counts are ints: 4294967298 is not 2 */
+    orc_parse_add_error (parser, "number out of range '%s'", token);
+    value = 0;
   }
 
   return value;
